@@ -88,13 +88,26 @@ pub fn run(ctx: &Ctx) -> Report {
     // corpus: D16 — highly compressible data, flush, cut
     for layers in [L_COMP, L_COMP | L_ENC] {
         let cfg = Cfg::make(&mut rng, layers);
-        let ops = vec![Op::Start("z".into()), Op::Append { id: 0, size: 200_000, src: vec![7u8; 200_000] }, Op::Flush, Op::End(0), Op::Finalize];
+        let ops = vec![Op::Start("z".into()), Op::Append { id: 0, size: if CONSTS.scaled { 5 * CONSTS.block as u64 } else { 200_000 }, src: vec![7u8; if CONSTS.scaled { 5 * CONSTS.block } else { 200_000 }] }, Op::Flush, Op::End(0), Op::Finalize];
         check(&mut rep, &mut model, &cfg, &ops);
     }
-    let n = ctx.budget(80, 1500);
+    // flush exactly when the bytes that went through the layers end on a compression block / on an
+    // encryption chunk (start 17+1, content header 17, then data)
+    for (unit, layers) in [(CONSTS.block, L_COMP), (CONSTS.block, L_COMP | L_ENC), (2 * CONSTS.block, L_COMP), (CONSTS.chunk, L_ENC), (2 * CONSTS.chunk, L_COMP | L_ENC)] {
+        for delta in [-1i64, 0, 1] {
+            let n = (unit as i64 - 35 + delta).max(1) as usize;
+            for class in [3u8, 2] {
+                let cfg = Cfg::make(&mut rng, layers);
+                let ops = vec![Op::Start("z".into()), Op::Append { id: 0, size: n as u64, src: rng.bytes(n, class) }, Op::Flush,
+                    Op::Append { id: 0, size: 9, src: rng.bytes(9, 3) }, Op::End(0), Op::Finalize];
+                check(&mut rep, &mut model, &cfg, &ops);
+            }
+        }
+    }
+    let n = if CONSTS.scaled { ctx.budget(600, 8000) } else { ctx.budget(80, 1500) };
     for i in 0..n {
         let cfg = Cfg::make(&mut rng, (i % 4) as u8);
-        let o = GenOpts { max_files: 4, max_piece: 2 * CONSTS.chunk.min(300_000) + 100, max_total: if i % 10 == 9 { 9 << 20 } else { 700_000 }, long_name_chance: (0, 1), flushes: true };
+        let o = GenOpts { max_files: 4, max_piece: if CONSTS.scaled { 2 * CONSTS.block } else { 2 * CONSTS.chunk.min(300_000) + 100 }, max_total: if CONSTS.scaled { 6 * CONSTS.block } else if i % 10 == 9 { 9 << 20 } else { 700_000 }, long_name_chance: (0, 1), flushes: true };
         let mut ops = gen_valid_ops(&mut rng, &o);
         // make sure there is at least one flush somewhere in the middle
         let at = 1 + rng.below(ops.len() as u64 - 1) as usize;
